@@ -39,6 +39,25 @@ type GenConfig struct {
 	// distinct vulnerabilities hang on the distinct requirements of a duplicated package).
 	// GenScenario sets it to the duplicated package of the manifest.
 	FocusPackage string
+	// LinkedAdvisories: this percentage of the scenarios gets advisories that name OTHER
+	// advisories of the same scenario in `aliases` (one way or mutually): a constructed pair
+	// that covers adjacent or disjoint version ranges of one package ("the same advisory
+	// published under two IDs"), or an extra alias between two of the drawn records. Off (0) in
+	// DefaultConfig; when off nothing is drawn for it.
+	LinkedAdvisories int
+	// DevShared: this percentage of the manifests gets a dev (npm) / test (Maven) scoped direct
+	// requirement on a package that is ALSO reachable through a production requirement: a
+	// package in the dependency closure of a production direct dependency, or (npm) the package
+	// of a production direct dependency itself, required again under another key or under the
+	// same key in devDependencies. Extra advisories then hang on that package. Off (0) in
+	// DefaultConfig; when off nothing is drawn for it.
+	DevShared int
+
+	// set by GenScenario for GenVulns
+	directs     []string       // packages of the manifest's direct requirements
+	prodDirects []string       // those that are not dev/test scoped
+	directBase  map[string]int // package of a direct requirement -> index of the version the requirement names
+	devFocus    *devShared     // what addDevShared built
 }
 
 // DefaultConfig is the configuration C11/C12 use.
@@ -545,6 +564,12 @@ func GenVulns(t *rapid.T, ix *Index, cfg GenConfig) []OSV {
 		}
 		out = append(out, o)
 	}
+	if cfg.devFocus != nil {
+		out = genDevSharedVulns(t, ix, cfg, out)
+	}
+	if cfg.LinkedAdvisories > 0 && pct(t, "linked?") < cfg.LinkedAdvisories {
+		out = genLinkedAdvisories(t, ix, cfg, out)
+	}
 	return out
 }
 
@@ -669,6 +694,23 @@ func GenScenario(t *rapid.T, cfg GenConfig) Scenario {
 	}
 	if name := m.DuplicatedPackage(); name != "" {
 		cfg.FocusPackage = name
+	}
+	if cfg.DevShared > 0 && Pct(t, "devshared?") < cfg.DevShared {
+		cfg.devFocus = addDevShared(t, ix, cfg, &m, u)
+	}
+	if cfg.LinkedAdvisories > 0 || cfg.devFocus != nil {
+		cfg.directBase = map[string]int{}
+		for _, d := range m.Deps {
+			cfg.directs = append(cfg.directs, d.Name)
+			if d.Group != DevGroup(cfg.System) {
+				cfg.prodDirects = append(cfg.prodDirects, d.Name)
+			}
+			if p, ok := ix.Package(d.Name); ok {
+				if _, dup := cfg.directBase[d.Name]; !dup {
+					cfg.directBase[d.Name] = reqBaseIndex(p, d.Req)
+				}
+			}
+		}
 	}
 	return Scenario{Universe: u, Manifest: m, Vulns: GenVulns(t, ix, cfg), Levels: GenLevels(t, ix)}
 }
